@@ -139,7 +139,7 @@ def run(ctx, replay):
     ctx.pending, ctx.nbad = [], 0
     ncpu = os.cpu_count() or 2
     maxth = max(2, min(16, ncpu))
-    ncase = 60 if ctx.tier == "quick" else 300
+    ncase = 60 if ctx.tier == "quick" else 160
     for (label, kw), exe in zip(vs, exes):
         W = c02.width(kw)
         ctx.curW = W
